@@ -307,9 +307,13 @@ def atom_label(key):
     for pred, lab in LABELS:
         if pred(key):
             return lab
-    ids = re.findall(r"[A-Za-z_][A-Za-z0-9_]*", key.split("(")[-1] if key.endswith(")") is False else key)
-    ids = [x for x in ids if x not in ("some", "is", "let", "param", "self", "ctx", "match", "local", "lit")]
-    return ids[-1] if ids else "cond"
+    calls = [x for x in re.findall(r"([a-z_][A-Za-z0-9_]*)\(", key) if x not in ("match", "is", "let", "some", "unwrap_or")]
+    fields = re.findall(r"::([a-z_][A-Za-z0-9_]*)(?![A-Za-z0-9_:(<])", key)
+    base = calls[0] if calls else fields[-1] if fields else "cond"
+    m = re.match(r"(?:is|let)\(.*;([^;]*)\)$", key)
+    if m:
+        return "%s=%s" % (base, "|".join(v.split("::")[-1] for v in m.group(1).split(",")))
+    return base
 
 
 def literal(key, val):
@@ -357,24 +361,19 @@ def resolve(body, n, depth=8):
 
 
 def mentions(body, n, needle, depth=10, seen=None):
-    """does the value of n (immutable locals followed) involve a call / path / field whose resolved name contains needle?"""
+    """does the value of n (immutable let-bound locals followed) involve a call / path / field whose resolved name contains needle?"""
     seen = set() if seen is None else seen
-    if depth <= 0:
+    if depth <= 0 or not isinstance(n, dict) or "k" not in n:
         return False
     for x in body.walk(n):
         if needle in callee(x) or needle in x.get("def", "") or (x.get("k") == "Field" and needle in "%s::%s" % (x.get("adt"), x["f"])):
             return True
         if x.get("k") == "Local" and x["id"] not in seen:
             seen.add(x["id"])
-            r = resolve(body, x, 1)
-            if r is not x and r.get("k") != "Local" or (r.get("k") == "Local" and r["id"] != x["id"]):
-                if mentions(body, r, needle, depth - 1, seen):
+            d = body.local_def.get(x["id"])
+            if d and d[0][0] == "let" and d[0][1].get("init") is not None and x["id"] not in body.local_assigned:
+                if mentions(body, d[0][1]["init"], needle, depth - 1, seen):
                     return True
-            else:
-                d = body.local_def.get(x["id"])
-                if d and d[0][0] == "let" and d[0][1].get("init") is not None and x["id"] not in body.local_assigned:
-                    if mentions(body, d[0][1]["init"], needle, depth - 1, seen):
-                        return True
     return False
 
 
@@ -481,7 +480,7 @@ def panic_sites(body):
     return uniq
 
 
-def is_err_return(body, n):
+def is_err_return(body, n, allow_value=False):
     """`return Err(CodegenError::Serialize{..})` (possibly as a block tail)."""
     n = strip(n)
     while n.get("k") == "Block":
@@ -491,10 +490,908 @@ def is_err_return(body, n):
             n = strip(n["stmts"][-1]["e"])
         else:
             return False
-    if n.get("k") != "Ret" or "e" not in n:
+    if n.get("k") == "Ret" and "e" in n:
+        e = strip(n["e"])
+    elif allow_value:
+        e = n
+    else:
         return False
-    e = strip(n["e"])
     if e.get("k") != "Call" or not (e.get("ctor") or callee(e)).endswith("::Err"):
         return False
     a = strip(e["args"][0])
     return a.get("k") == "Struct" and "CodegenError" in (a.get("adt") or a.get("res", {}).get("def", ""))
+
+
+# ---------------------------------------------------------------------------------------------
+# R16.1  binding <=> wrapper in Function::codegen
+# ---------------------------------------------------------------------------------------------
+class CodegenSites:
+    """Emission sites of `impl CodeGenerator for Function`."""
+
+    def __init__(self, rep):
+        prog = rep.prog
+        self.b = b = rep.need(prog.impl_fn(CG, FN, "codegen"), "impl CodeGenerator for Function :: codegen")
+        self.lg = Logic(b)
+        self.extern, self.queue, self.dynamic, self.link_wrap, self.link_other = [], [], [], [], []
+        for c in b.calls():
+            if c["k"] == "MCall" and c["name"] in ("push", "extend", "append", "insert", "extend_from_slice"):
+                r = strip(c["recv"])
+                rt = (b.ty(r) or "").replace("&mut ", "").replace("&", "")
+                if r.get("k") == "Field" and r.get("adt") == RESULT and r["f"] == "items_to_serialize":
+                    self.queue.append(c)
+                elif (r.get("k") == "Field" and r.get("adt") == RESULT and r["f"] == "items") or \
+                        (r.get("k") != "Field" and rt.startswith(RESULT)):
+                    self.extern.append(c)
+            if c["k"] == "MCall" and callee(c).startswith("codegen::dyngen::DynamicItems::push"):
+                self.dynamic.append(c)
+            if c["k"] == "Call" and callee(c) == LINK_NAME:
+                if mentions(b, c["args"][0], SUFFIX_GETTER):
+                    self.link_wrap.append(c)
+                else:
+                    self.link_other.append(c)
+        # atoms
+        lin = [n for n in b.nodes if n["k"] == "MCall" and callee(n) == FN + "::linkage"]
+        rep.need(lin, "a read of Function::linkage in Function::codegen")
+        self.internal = None
+        for n in lin:
+            p = n
+            for a in [n] + list(b.ancestors(n)):
+                if a["k"] in ("Match", "Binary") and (b.ty(a) == "bool"):
+                    f = self.lg.boolf(a)
+                    if any("Linkage::Internal" in at[1] for at in f_atoms(f)):
+                        self.internal = f
+                    break
+            if self.internal is not None:
+                break
+        rep.need(self.internal, "a test of `self.linkage()` against Linkage::Internal")
+        self.variadic = None
+        for n in b.nodes:
+            if n["k"] == "MCall" and callee(n) == "ir::function::FunctionSig::is_variadic":
+                self.variadic = self.lg.boolf(n)
+                break
+        self.wrap_opt = None
+        for n in b.nodes:
+            if n["k"] == "Field" and n.get("adt") == OPT and n["f"] == "wrap_static_fns":
+                self.wrap_opt = self.lg.boolf(n)
+                break
+
+    def attr_vec(self, link_call):
+        """local id of the Vec the link_name attribute is pushed to."""
+        p = self.b.parent[link_call["_i"]]
+        while p is not None and p["k"] in ("AddrOf",):
+            p = self.b.parent[p["_i"]]
+        if p is not None and p["k"] == "MCall" and p["name"] == "push":
+            return local_id(p["recv"])
+        return None
+
+
+def describe(cexs, atoms, cons_atoms, ante):
+    """prime implicants (relative to the antecedent) of the counterexamples, projected on the consequent's atoms that
+    the antecedent leaves free: [(literal text, counterexample models covered)]."""
+    free = []
+    amodels = list(models(ante, atoms))
+    for a in sorted(cons_atoms):
+        if len({m[a] for m in amodels}) > 1:
+            free.append(a)
+    rows = {tuple(m[a] for a in free) for m in cexs}
+    possible = {tuple(m[a] for a in free) for m in amodels}
+    dontcare = set()
+    for bits in range(1 << len(free)):
+        r = tuple(bool(bits >> i & 1) for i in range(len(free)))
+        if r not in possible:
+            dontcare.add(r)
+    out = []
+    for imp in prime_implicants(rows | dontcare):
+        sel = [m for m in cexs if all(v is None or m[a] == v for a, v in zip(free, imp))]
+        if not sel:
+            continue
+        lits = sorted(literal(a[1], v) for a, v in zip(free, imp) if v is not None)
+        out.append((",".join(lits) or "always", sel))
+    return out
+
+
+@RULES.rule("R16.1", "internal-linkage function: extern item emitted => wrapper queued and linked by name+suffix", floor=12)
+def r16_1(rep):
+    """Necessary: a binding of a `static` function can only link against the wrapper.  Breaking inputs:
+    `static inline int foo(int);` whose binding is pushed but which is not queued in `items_to_serialize`
+    has no definition at link time; a variadic static function that is queued hits the serializer's
+    `assert!(!signature.is_variadic())`."""
+    cs = CodegenSites(rep)
+    b, lg = cs.b, cs.lg
+    where = "@Function::codegen"
+    rep.need(cs.extern, "push of the extern item to CodegenResult")
+    rep.check(bool(cs.queue), "site:items_to_serialize" + where, "%d push(es) to CodegenResult.items_to_serialize" % len(cs.queue), b.loc(b.root))
+    rep.check(bool(cs.link_wrap), "site:link_name-wrapper" + where,
+              "%d attributes::link_name(<name + wrap_static_fns_suffix>) site(s)" % len(cs.link_wrap), b.loc(b.root))
+    rep.note("sites", {"extern": [b.loc(c) for c in cs.extern], "queue": [b.loc(c) for c in cs.queue],
+                       "dynamic": [b.loc(c) for c in cs.dynamic], "link_wrap": [b.loc(c) for c in cs.link_wrap],
+                       "link_other": [b.loc(c) for c in cs.link_other]})
+    I = cs.internal
+    r_queue = f_or([lg.reachf(c) for c in cs.queue])
+    r_link = f_or([lg.reachf(c) for c in cs.link_wrap])
+    r_other = f_or([lg.reachf(c) for c in cs.link_other])
+
+    # (a) the implication, per extern-emission site
+    for e in cs.extern:
+        ante = f_and([I, lg.reachf(e)])
+        parts = [("not queued in items_to_serialize", r_queue), ("no link_name::<true>(name+suffix)", r_link),
+                 ("carries another link_name", f_not(r_other))]
+        cons = f_and([p[1] for p in parts])
+        cexs, atoms = counterexamples(ante, cons)
+        if cexs is None:
+            rep.bad("internal-binding-without-wrapper:undecided" + where, "guards too complex (%d atoms)" % len(atoms), b.loc(e))
+            continue
+        if not satisfiable(ante):
+            rep.bad("internal-binding-unreachable" + where, "no path emits a binding for an internal function: the feature is gone", b.loc(e))
+            continue
+        if not cexs:
+            rep.ok("internal-binding-has-wrapper" + where, "reach(extern push) && is_internal entails queue && wrapper link_name", b.loc(e))
+            continue
+        for lits, sel in describe(cexs, atoms, f_atoms(cons), ante):
+            failing = [name for name, f in parts if any(not f_eval(f, dict(m)) for m in sel)]
+            only_other = failing == ["carries another link_name"]
+            key = ("internal-binding-has-two-link-names:" if only_other else "internal-binding-without-wrapper:") + lits + where
+            rep.bad(key, "when %s an internal-linkage function gets its `extern` item pushed but: %s" % (lits, "; ".join(failing)), b.loc(e))
+
+    # (b) converse pieces: wrappers only for internal functions with the option on, and only next to an emitted binding
+    for q in cs.queue:
+        rq = lg.reachf(q)
+        need = f_and([I] + ([cs.wrap_opt] if cs.wrap_opt is not None else [F]))
+        cexs, _ = counterexamples(rq, need)
+        rep.check(cexs == [], "wrapper-only-for-internal-with-option" + where,
+                  "items_to_serialize is pushed only when is_internal && options.wrap_static_fns", b.loc(q))
+        emitted = f_or([lg.reachf(c) for c in cs.extern + cs.dynamic])
+        # every return between the queue push and the emission would leave a wrapper without binding
+        cexs, _ = counterexamples(rq, emitted)
+        rep.check(cexs == [], "wrapper-implies-binding" + where, "a queued wrapper always comes with an emitted binding", b.loc(q))
+    for l in cs.link_wrap:
+        cexs, _ = counterexamples(f_and([lg.reachf(l), f_or([lg.reachf(c) for c in cs.extern])]), r_queue)
+        rep.check(cexs == [], "wrapper-link-name-implies-wrapper" + where,
+                  "a binding that links against <name><suffix> has its wrapper queued", b.loc(l))
+
+    # (c) nothing is emitted for internal functions that cannot / must not be wrapped
+    kinds = [("extern-item", cs.extern), ("dynamic-item", cs.dynamic), ("wrapper-queue", cs.queue)]
+    for kind, sites in kinds:
+        if not sites:
+            continue
+        r = f_or([lg.reachf(c) for c in sites])
+        if cs.variadic is not None:
+            rep.check(not satisfiable(f_and([I, cs.variadic, r])), "variadic-internal-no-emission:" + kind + where,
+                      "is_internal && signature.is_variadic() never reaches the %s push" % kind, b.loc(sites[0]))
+        else:
+            rep.bad("variadic-internal-no-emission:" + kind + where, "signature.is_variadic() is never consulted", b.loc(sites[0]))
+        if cs.wrap_opt is not None:
+            rep.check(not satisfiable(f_and([I, f_not(cs.wrap_opt), r])), "internal-without-option-no-emission:" + kind + where,
+                      "is_internal && !options.wrap_static_fns never reaches the %s push" % kind, b.loc(sites[0]))
+        else:
+            rep.bad("internal-without-option-no-emission:" + kind + where, "options.wrap_static_fns is never consulted", b.loc(sites[0]))
+
+    # (d) the dynamic-loading sink must look the wrapper up, not the static function
+    for d in cs.dynamic:
+        if not satisfiable(f_and([I, lg.reachf(d)])):
+            rep.ok("internal-dynamic-binding-symbol" + where, "internal functions never reach the dynamic-loading sink", b.loc(d))
+            continue
+        sym = None
+        pf = rep.prog.fn(callee(d))
+        if pf is not None:
+            strs = [i for i, p in enumerate(pf.params) if rep.prog.types[p.get("t")] == "&str"] if all("t" in p for p in pf.params) else []
+            if len(strs) == 1:
+                sym = d["args"][strs[0] - 1]
+        if sym is None:
+            rep.bad("internal-dynamic-binding-symbol" + where, "cannot identify the symbol argument of %s" % callee(d), b.loc(d))
+            continue
+        rep.check(mentions(b, sym, SUFFIX_GETTER), "internal-dynamic-binding-symbol" + where,
+                  "under --dynamic-loading an internal-linkage function is looked up in the library by `%s`, which is not "
+                  "<name><wrap_static_fns_suffix>: the static function is not an exported symbol (and with "
+                  "--dynamic-link-require-all the whole library fails to load)" % b.canon(sym, 3), b.loc(d))
+
+    # (e) the queued id is the function's own item
+    for q in cs.queue:
+        a = resolve(b, q["args"][0])
+        first = strip(a["es"][0]) if a.get("k") == "Tup" and a["es"] else a
+        first = resolve(b, first)
+        ok = first.get("k") == "MCall" and callee(first) == "ir::item::Item::id" and \
+            strip(first["recv"]).get("k") == "Local" and b.local_def.get(strip(first["recv"])["id"], (("",),))[0][0] == "param"
+        rep.check(ok, "queued-id-is-own-item" + where, "items_to_serialize receives `%s`" % b.canon(first, 3), b.loc(q))
+
+    # (f) Function::parse never classifies an internal-linkage cursor as external
+    pb = None
+    for bb in rep.prog.bodies.values():
+        if bb.fact.get("impl_self") == FN and bb.path.endswith("::parse") and "ClangSubItemParser" in (bb.fact.get("impl_trait") or ""):
+            pb = bb
+    rep.need(pb, "impl ClangSubItemParser for Function :: parse")
+    found = False
+    for m in pb.nodes:
+        if m["k"] != "Match" or (pb.ty(m) or "") != "ir::function::Linkage":
+            continue
+        for a in m["arms"]:
+            pv = pat_variants(a["pat"])
+            if any(v.endswith("CXLinkage_Internal") for v in pv) or "_" in pv:
+                body = strip(a["body"])
+                val = body.get("def", "") if body.get("k") == "Path" else ""
+                ok = pb.diverges(a["body"]) or val.endswith("Linkage::Internal")
+                if any(v.endswith("CXLinkage_Internal") for v in pv):
+                    found = True
+                    ok = ok and not any(v.endswith("CXLinkage_External") or v.endswith("CXLinkage_UniqueExternal") for v in pv)
+                rep.check(ok, "linkage-class:%s@Function::parse" % "|".join(sorted(v.split("::")[-1] for v in pv)),
+                          "arm yields %s" % (val or "<diverges>" if pb.diverges(a["body"]) else val or pb.canon(body, 2)), pb.loc(a["body"]))
+    rep.check(found, "linkage-class:has-internal-arm@Function::parse", "CXLinkage_Internal is mapped explicitly", pb.loc(pb.root))
+    nb = rep.prog.fn(FN + "::new")
+    if nb is not None:
+        t = strip(nb.root.get("tail") or {})
+        fs = {f["f"]: nb.canon(f["e"], 2) for f in t.get("fs", [])} if t.get("k") == "Struct" else {}
+        idx = [i for i, a in enumerate(nb.params) if nb.prog.types[a.get("t")] == "ir::function::Linkage"] if all("t" in a for a in nb.params) else []
+        rep.check("linkage" in fs and fs["linkage"].startswith("param:") and len(idx) == 1,
+                  "linkage-stored@Function::new", "Function.linkage = %s" % fs.get("linkage"), nb.loc(nb.root))
+    rep.check(rep.prog.getters().get(FN + "::linkage") == (FN, "linkage"), "linkage-getter@Function::linkage",
+              "Function::linkage() returns the field")
+
+
+# ---------------------------------------------------------------------------------------------
+# R16.2  the wrapper symbol is spelled the same way on both sides
+# ---------------------------------------------------------------------------------------------
+def is_suffix_call(body, n):
+    n = resolve(body, n)
+    return n.get("k") == "MCall" and callee(n) == SUFFIX_GETTER and strip(n["recv"]).get("k") == "Local"
+
+
+def is_fn_name(body, n):
+    """`self.name()` of the Function being serialised / generated."""
+    n = resolve(body, n)
+    if n.get("k") == "MCall" and callee(n) == FN + "::name":
+        r = strip(n["recv"])
+        return r.get("k") == "Local" and r.get("name") == "self"
+    return False
+
+
+def concat_parts(body, n):
+    """operands of a string concatenation `a + b` / `format!("{a}{b}")`; None when n is neither."""
+    n = resolve(body, n)
+    if n.get("k") == "Binary" and n["op"] == "+":
+        l = concat_parts(body, n["l"]) or [("arg", strip(n["l"]))]
+        r = concat_parts(body, n["r"]) or [("arg", strip(n["r"]))]
+        return l + r
+    if n.get("k") in ("Call", "Block") and body.macro_name(n) == "format":
+        return fmt_pieces(body, n)
+    return None
+
+
+def serializer(rep, self_ty):
+    return rep.need(rep.prog.impl_fn(CS, self_ty, "serialize"), "impl CSerialize for %s" % self_ty)
+
+
+@RULES.rule("R16.2", "binding and wrapper spell the wrapper symbol as <name> + ctx.wrap_static_fns_suffix()", floor=9)
+def r16_2(rep):
+    """Necessary: the `#[link_name]` of the binding must be the symbol the C file defines.  Breaking edits:
+    a literal "__extern" on one side (custom `--wrap-static-fns-suffix` then links against nothing), suffix+name
+    instead of name+suffix, `link_name::<false>` (a `\\u{1}` prefix stops the platform's `_` mangling on macOS),
+    pushing the attribute to a vector that is not interpolated into the `extern` item."""
+    cs = CodegenSites(rep)
+    b, lg = cs.b, cs.lg
+    rep.need(cs.link_wrap, "attributes::link_name(<.. wrap_static_fns_suffix() ..>) in Function::codegen")
+    quotes = [q for q in qq.quote_sites(b) if q.has("extern") and q.has("fn")]
+    rep.need(quotes, "quote! of the extern item in Function::codegen")
+    for l in cs.link_wrap:
+        parts = concat_parts(b, l["args"][0])
+        shape = ["suffix" if p[0] == "arg" and is_suffix_call(b, p[1]) else "base" if p[0] == "arg" else "lit:" + p[1] for p in parts or []]
+        rep.check(shape == ["base", "suffix"], "binding-symbol-shape@Function::codegen",
+                  "link_name argument is %s (want <name> + wrap_static_fns_suffix())" % (shape or b.canon(l["args"][0], 3)), b.loc(l))
+        rep.check(l.get("gargs") == "[true]", "binding-symbol-mangled@Function::codegen",
+                  "link_name::<%s>: the wrapper is an ordinary C symbol and must get the platform's mangling" % l.get("gargs"), b.loc(l))
+        vec = cs.attr_vec(l)
+        hit = False
+        for q in quotes:
+            loc = q.interps().get("attributes")
+            ids = {n["id"] for n in b.walk(q.root) if n["k"] == "Local"}
+            if vec is not None and vec in ids:
+                # the quote is what the extern push receives
+                for e in cs.extern:
+                    a = strip(e["args"][0])
+                    init = b.local_init(a["id"]) if a.get("k") == "Local" else a
+                    if init is not None and (init is q.root or any(x is q.root for x in b.walk(init)) or b.macro_site(init) == q.site):
+                        hit = True
+        rep.check(hit, "binding-symbol-attached@Function::codegen",
+                  "the link_name attribute is pushed to the vector interpolated into the pushed `extern` item", b.loc(l))
+        # name base: the wrapper file uses Function::name(); anything else must be proven equal by the guard
+        base = [p[1] for p in parts or [] if p[0] == "arg" and not is_suffix_call(b, p[1])]
+        if len(base) == 1:
+            if is_fn_name(b, base[0]):
+                rep.ok("symbol-base-agrees@Function::codegen", "binding uses Function::name() like the wrapper", b.loc(l))
+            else:
+                bid = local_id(base[0])
+                ident = [c for c in b.calls(lambda n: n["k"] == "Call" and callee(n).endswith(IDENTICAL))]
+                same = [c for c in ident if bid is not None and local_id(c["args"][0]) == bid and mentions(b, c["args"][1], FN + "::name")]
+                # reach(link) must entail "no link_name_attr", where link_name_attr is Some unless the names are identical
+                none_atoms = [a for a in f_atoms(lg.reachf(l)) if a[1].startswith("some:") and mentions(b, lg.info[a[1]], IDENTICAL)]
+                proved = bool(same) and bool(none_atoms) and all(counterexamples(lg.reachf(l), f_not(a))[0] == [] for a in none_atoms)
+                rep.check(proved, "symbol-base-agrees@Function::codegen",
+                          "binding uses `%s` + suffix, the wrapper file uses Function::name() + suffix: equal only under "
+                          "`names_will_be_identical_after_mangling(<that name>, ..name..)`, i.e. link_name_attr.is_none() must guard the site"
+                          % b.canon(base[0], 2), b.loc(l))
+    # wrapper side
+    sb = serializer(rep, FN)
+    sites = [n for n in sb.nodes if n["k"] == "MCall" and callee(n) == SUFFIX_GETTER]
+    rep.check(len(sites) >= 1, "wrapper-symbol-suffix-source@Function::serialize",
+              "%d read(s) of ctx.wrap_static_fns_suffix()" % len(sites), sb.loc(sb.root))
+    for n in sites:
+        fmt = None
+        for a in sb.ancestors(n):
+            if sb.macro_name(a) == "format" or (a["k"] == "Binary" and a["op"] == "+"):
+                fmt = a
+        parts = concat_parts(sb, fmt) if fmt is not None else None
+        shape = ["suffix" if p[0] == "arg" and is_suffix_call(sb, p[1]) else "name" if p[0] == "arg" and is_fn_name(sb, p[1])
+                 else "?" + sb.canon(p[1], 2) if p[0] == "arg" else "lit:" + p[1] for p in parts or []]
+        rep.check(shape == ["name", "suffix"], "wrapper-symbol-shape@Function::serialize",
+                  "wrapper symbol is %s (want Function::name() + wrap_static_fns_suffix())" % (shape or "<not a concatenation>"), sb.loc(n))
+    # getter and default
+    gb = rep.need(rep.prog.fn(SUFFIX_GETTER), SUFFIX_GETTER)
+    tail = gb.root.get("tail") or {}
+    rep.check(mentions(gb, tail, OPT + "::wrap_static_fns_suffix"), "suffix-getter-reads-option",
+              "wrap_static_fns_suffix() = %s" % gb.canon(tail, 4), gb.loc(gb.root))
+    dflt = [bb for p, bb in rep.prog.bodies.items() if p.endswith("DEFAULT_NON_EXTERN_FNS_SUFFIX")]
+    used = mentions(gb, tail, "DEFAULT_NON_EXTERN_FNS_SUFFIX")
+    v = strip(dflt[0].root).get("v") if dflt else None
+    rep.check(bool(used and isinstance(v, str) and re.fullmatch(r"[A-Za-z0-9_]+", v)), "suffix-default-is-identifier-tail",
+              "default suffix %r must be non-empty and made of identifier characters" % (v,), gb.loc(gb.root))
+
+
+# ---------------------------------------------------------------------------------------------
+# R16.3  utils::serialize_items assembles the wrapper file
+# ---------------------------------------------------------------------------------------------
+def writes_to(body, buf_id, within=None):
+    """write!/writeln!/write_all calls whose receiver is the local `buf_id`."""
+    out = []
+    for c in body.calls(lambda n: n["k"] == "MCall" and n["name"] in ("write_fmt", "write_all", "write_str", "extend_from_slice", "push_str"), within):
+        if local_id(c["recv"]) == buf_id:
+            out.append(c)
+    return out
+
+
+def loop_exits(body, loop):
+    """`continue` / `break` / `return` inside the loop body (closures excluded) — `?` is a Try node and not listed."""
+    out = []
+    for n in body.walk(loop["body"]):
+        if n["k"] in ("Continue", "Break", "Ret") and not any(a["k"] == "Closure" for a in body.ancestors(n) if a["_i"] > loop["_i"]):
+            out.append(n)
+    return out
+
+
+def direct_iter_of(body, loop, adt, field):
+    it = resolve(body, loop["iter"])
+    return it.get("k") == "Field" and it.get("adt") == adt and it["f"] == field
+
+
+@RULES.rule("R16.3", "serialize_items: includes/contents first, every queued item serialised, written to <path>.c/.cpp, errors propagated", floor=18)
+def r16_3(rep):
+    """Necessary: the C file must see the static functions before the wrappers that call them and must hold a
+    wrapper for every binding that links against one.  Breaking edits: wrappers written before `#include`
+    (implicit declaration / unknown type errors), `.skip(1)` / `continue` / `break` in the item loop (undefined
+    symbol at link time), an extra early `return Ok(())`, extension swapped (C++ header compiled as C),
+    `let _ = serialize_items(..)` in the driver (an unsupported type silently leaves bindings without wrappers)."""
+    prog = rep.prog
+    b = rep.need(prog.fn("codegen::utils::serialize_items"), "codegen::utils::serialize_items")
+    lg = Logic(b)
+    where = "@serialize_items"
+    # the item loop
+    loops = [n for n in b.nodes if n["k"] == "For" and direct_iter_of(b, n, RESULT, "items_to_serialize")]
+    any_loop = [n for n in b.nodes if n["k"] == "For" and mentions(b, n["iter"], RESULT + "::items_to_serialize")]
+    rep.check(len(loops) == 1 and len(any_loop) == 1, "item-loop-covers-all" + where,
+              "one `for` directly over result.items_to_serialize (direct: %d, through adaptors: %d)" % (len(loops), len(any_loop) - len(loops)),
+              b.loc(any_loop[0]) if any_loop else b.loc(b.root))
+    rep.need(any_loop, "for loop over items_to_serialize")
+    loop = (loops or any_loop)[0]
+    sers = [c for c in b.calls(lambda n: n["k"] == "MCall" and callee(n).startswith("<ir::item::Item as " + CS), loop["body"])]
+    rep.check(len(sers) == 1, "item-loop-serialises" + where, "%d call(s) of <Item as CSerialize>::serialize in the loop" % len(sers), b.loc(loop))
+    rep.need(sers, "<Item as CSerialize>::serialize call in the item loop")
+    ser = sers[0]
+    ex = loop_exits(b, loop)
+    extra = [g for g in b.guards(ser) if g not in b.guards(loop["body"])]
+    rep.check(not ex and not extra, "item-loop-no-skip" + where,
+              "no continue/break/return (%d) and no condition (%d) between the loop head and the serialize call" % (len(ex), len(extra)),
+              b.loc(ex[0]) if ex else b.loc(ser))
+    rep.check(b.parent[ser["_i"]]["k"] == "Try", "item-error-propagated" + where, "`item.serialize(..)?`", b.loc(ser))
+    # loop element -> item / extra
+    pat_ids = {}
+    for lid, d in b.local_def.items():
+        if d[0][0] == "for" and d[0][1] is loop:
+            pat_ids[lid] = d[1]
+    recv = resolve(b, ser["recv"])
+    okid = recv.get("k") == "MCall" and callee(recv).endswith("BindgenContext::resolve_item") and \
+        any(local_id(x) in pat_ids and pat_ids[local_id(x)] == (("tuple", "0"),) for x in [recv["args"][0]])
+    rep.check(okid, "item-loop-resolves-own-id" + where, "serialised item = %s" % b.canon(recv, 3), b.loc(ser))
+    ex_arg = ser["args"][1] if len(ser["args"]) > 1 else {}
+    rep.check(local_id(ex_arg) in pat_ids and pat_ids[local_id(ex_arg)] == (("tuple", "1"),), "item-loop-passes-own-variadic-info" + where,
+              "the WrapAsVariadic passed along is the one queued with the id", b.loc(ser))
+    buf = local_id(ser["args"][-1])
+    rep.need(buf is not None, "the buffer local handed to Item::serialize")
+    # file write
+    fw = [c for c in b.calls(lambda n: n["k"] == "Call" and callee(n) in ("std::fs::write",))]
+    fw += [c for c in b.calls(lambda n: n["k"] == "MCall" and n["name"] == "write_all" and "std::fs::File" in (b.ty(n["recv"]) or ""))]
+    rep.check(len(fw) == 1, "file-written-once" + where, "%d file write(s)" % len(fw), b.loc(b.root))
+    rep.need(fw, "std::fs::write in serialize_items")
+    w = fw[0]
+    rep.check(local_id(w["args"][-1]) == buf and w["_i"] > loop["_i"] and not [g for g in b.guards(w) if g[1] == "cond" and g not in b.guards(loop)],
+              "file-holds-buffer" + where, "the buffer the wrappers were written to is what reaches the file, after the loop, unconditionally", b.loc(w))
+    rep.check(b.parent[w["_i"]]["k"] == "Try", "file-error-propagated" + where, "`fs::write(..)?`", b.loc(w))
+    # only exit before the write: nothing to serialise
+    rets = [r for r in lg._returns()]
+    for r in rets:
+        f = lg.reachf(r)
+        ats = f_atoms(f)
+        only_empty = len(ats) == 1 and all("is_empty" in a[1] and RESULT + "::items_to_serialize" in a[1] for a in ats) and \
+            satisfiable(f) and not satisfiable(f_and([f, f_not(list(ats)[0])]))
+        rep.check(only_empty, "early-exit-only-when-nothing-queued" + where,
+                  "`return` before the file is written is taken exactly when items_to_serialize.is_empty()", b.loc(r))
+    # path and extension
+    path_arg = w["args"][0]
+    rep.check(mentions(b, path_arg, OPT + "::wrap_static_fns_path"), "path-from-option" + where,
+              "file path derives from options.wrap_static_fns_path", b.loc(w))
+    we = None
+    for n in b.nodes:
+        if n["k"] == "MCall" and n["name"] in ("with_extension", "set_extension") and callee(n).startswith("std::path::Path"):
+            we = n
+    rep.need(we, "Path::with_extension in serialize_items")
+    used = any(x is we for x in b.walk(resolve(b, path_arg))) or resolve(b, path_arg) is we
+    rep.check(used, "path-gets-extension" + where, "the written path is the one that received the extension", b.loc(we))
+    ext = resolve(b, we["args"][0])
+    elg = lg
+    cpp_calls = {"args": None, "hdr": None}
+    for n in b.nodes:
+        if n["k"] == "Call" and callee(n).endswith("args_are_cpp") and mentions(b, n["args"][0], OPT + "::clang_args"):
+            cpp_calls["args"] = n
+        if n["k"] == "Call" and callee(n).endswith("file_is_cpp"):
+            # must be `any` over input_headers
+            for a in b.ancestors(n):
+                if a["k"] == "MCall" and a["name"] == "any" and mentions(b, a["recv"], OPT + "::input_headers"):
+                    cpp_calls["hdr"] = a
+    rep.check(cpp_calls["args"] is not None and cpp_calls["hdr"] is not None, "language-detection" + where,
+              "C++ is detected from clang_args (args_are_cpp) and from any input header (file_is_cpp)", b.loc(we))
+    if cpp_calls["args"] is not None and cpp_calls["hdr"] is not None and ext.get("k") in ("If", "Match"):
+        ka = elg.boolf(cpp_calls["args"])
+        kh = elg.boolf(cpp_calls["hdr"])
+
+        def ext_under(env):
+            n = ext
+            for _ in range(6):
+                n = strip(n)
+                if n.get("k") == "Lit":
+                    return n.get("v")
+                if n.get("k") == "If" and "else" in n:
+                    f = elg.boolf(n["cond"])
+                    if not f_atoms(f) <= set(env):
+                        return None
+                    n = n["then"] if f_eval(f, env) else n["else"]
+                    continue
+                if n.get("k") == "Match" and b.ty(n["scrut"]) == "bool":
+                    f = elg.boolf(n["scrut"])
+                    if not f_atoms(f) <= set(env):
+                        return None
+                    v = f_eval(f, env)
+                    arm = None
+                    for a in n["arms"]:
+                        pv = pat_variants(a["pat"])
+                        if ("lit:True" in pv and v) or ("lit:False" in pv and not v) or "_" in pv:
+                            arm = a
+                            break
+                    if arm is None:
+                        return None
+                    n = arm["body"]
+                    continue
+                return None
+            return None
+        for va in (False, True):
+            for vh in (False, True):
+                got = ext_under({ka: va, kh: vh})
+                want = "cpp" if (va or vh) else "c"
+                rep.check(got == want, "extension:args_cpp=%d,header_cpp=%d%s" % (va, vh, where), "extension %r (want %r)" % (got, want), b.loc(we))
+    else:
+        rep.bad("extension:undecided" + where, "extension expression is not an if/match over the language test", b.loc(we))
+    # includes and contents precede the wrappers
+    for field, what in (("input_headers", "include"), ("input_header_contents", "contents")):
+        fl = [n for n in b.nodes if n["k"] == "For" and direct_iter_of(b, n, OPT, field)]
+        if not rep.check(len(fl) == 1, "%s-loop-covers-all%s" % (what, where), "%d `for` directly over options.%s" % (len(fl), field), b.loc(b.root)):
+            continue
+        l = fl[0]
+        ws = writes_to(b, buf, l["body"])
+        ids = {lid for lid, d in b.local_def.items() if d[0][0] == "for" and d[0][1] is l}
+        good = False
+        for c in ws:
+            ps = fmt_pieces(b, c) or []
+            args = [p[1] for p in ps if p[0] == "arg"]
+            lits = "".join(p[1] for p in ps if p[0] == "lit")
+            if what == "include":
+                # #include "<header>"\n
+                good = good or (len(args) == 1 and local_id(args[0]) in ids and re.fullmatch(r'\s*#\s*include\s*""[ \t]*\n', lits) is not None
+                                and ps[0][0] == "lit" and ps[0][1].rstrip().endswith('"') and ps[-1][0] == "lit" and ps[-1][1].startswith('"') and ps[-1][1].endswith("\n"))
+            else:
+                cid = [lid for lid in ids if b.local_def[lid][1] == (("tuple", "1"),)]
+                # the contents must start a fresh line and end one (a `// name` comment precedes them today)
+                for i, p in enumerate(ps):
+                    if p[0] == "arg" and local_id(p[1]) in cid:
+                        before = ps[i - 1][1] if i > 0 and ps[i - 1][0] == "lit" else "" if i == 0 else None
+                        after = ps[i + 1][1] if i + 1 < len(ps) and ps[i + 1][0] == "lit" else None
+                        good = good or ((before == "" or (before is not None and before.endswith("\n"))) and after is not None and after.startswith("\n"))
+        rep.check(good, "%s-text%s" % (what, where),
+                  '`#include "<header>"` line per header' if what == "include" else "the header contents are written verbatim on their own lines", b.loc(l))
+        exs = loop_exits(b, l)
+        gl = [g for g in b.guards(l) if g[1] == "cond" and g not in b.guards(loop)]
+        only_nonempty = all("is_empty" in b.canon(g[2], 4) and field in b.canon(g[2], 6) for g in gl)
+        rep.check(not exs and only_nonempty, "%s-loop-no-skip%s" % (what, where), "no exits, guarded at most by `!%s.is_empty()`" % field, b.loc(l))
+        rep.check(l["_i"] < loop["_i"] and not any(a is loop for a in b.ancestors(l)), "%s-before-wrappers%s" % (what, where),
+                  "the %s loop precedes the wrapper loop" % what, b.loc(l))
+    # driver
+    callers = []
+    for bb in prog.bodies.values():
+        for c in bb.calls(lambda n: n["k"] == "Call" and callee(n) == "codegen::utils::serialize_items"):
+            callers.append((bb, c))
+    rep.check(len(callers) == 1, "driver-calls-once", "%d call site(s) of serialize_items" % len(callers))
+    for bb, c in callers:
+        root_cg = [x for x in bb.calls(lambda n: n["k"] == "MCall" and n["name"] == "codegen" and "root_module" in bb.canon(n["recv"], 4))]
+        rep.check(bool(root_cg) and all(x["_i"] < c["_i"] for x in root_cg), "driver-after-codegen", "serialize_items runs after the root module's codegen", bb.loc(c))
+        conds = [g for g in bb.guards(c) if g[1] == "cond"]
+        rep.check(not conds, "driver-unconditional", "serialize_items is not behind a condition (%d)" % len(conds), bb.loc(c))
+        rep.check(bb.parent[c["_i"]]["k"] == "Try", "driver-propagates-error", "`serialize_items(..)?`: a type that cannot be serialised fails the run", bb.loc(c))
+        a0 = resolve(bb, c["args"][0])
+        rep.check((bb.ty(strip(c["args"][0])) or "").replace("&", "").startswith(RESULT), "driver-passes-result", "receives the CodegenResult", bb.loc(c))
+
+
+# ---------------------------------------------------------------------------------------------
+# R16.4  CSerialize for Type / TypeId / Item: supported kinds, Err for the rest, no panics
+# ---------------------------------------------------------------------------------------------
+REQUIRED_KINDS = ["Void", "Int", "Float", "Alias", "ResolvedTypeRef", "Pointer", "Array", "Function", "Comp", "Enum"]
+TYPE = "ir::ty::Type"
+TYPEID = "ir::context::TypeId"
+ITEM = "ir::item::Item"
+
+
+def emits_something(body, n, writer_ids):
+    """does the subtree write to the writer or recurse into another serializer?"""
+    for c in body.calls(None, n):
+        if c["k"] == "MCall" and c["name"] in ("write_fmt", "write_all", "write_str") and local_id(c["recv"]) in writer_ids:
+            return True
+        if CS in callee(c) or callee(c).startswith("codegen::serialize::serialize_"):
+            return True
+    return False
+
+
+@RULES.rule("R16.4", "CSerialize for Type: promised kinds handled, every other kind is Err(CodegenError::Serialize), no panic paths", floor=24)
+def r16_4(rep):
+    """Necessary: a parameter of a kind the feature supports must be written, one it does not support must fail
+    the run with an error the caller can report.  Breaking edits: deleting the `TypeKind::Enum` arm (a static
+    function taking an enum by value makes bindgen fail), `_ => unreachable!()` / `todo!()` as catch-all (a header with a
+    `static inline` function taking a reference / vector / block pointer aborts the process instead of
+    returning `CodegenError::Serialize`), dropping the trailing declarator (`int foo__extern(int, int)`)."""
+    prog = rep.prog
+    tb = serializer(rep, TYPE)
+    wid = {tb.params[-1].get("id")} if tb.params and tb.params[-1].get("k") == "Bind" else set()
+    stack_id = tb.params[-2].get("id") if len(tb.params) >= 2 and tb.params[-2].get("k") == "Bind" else None
+    rep.need(wid, "writer parameter of <Type as CSerialize>::serialize")
+    km = [n for n in tb.nodes if n["k"] == "Match" and (tb.ty(n["scrut"]) or "").replace("&", "") == "ir::ty::TypeKind"]
+    rep.need(km, "match over TypeKind in <Type as CSerialize>::serialize")
+    top = km[0]
+    handled = {}
+    for a in top["arms"]:
+        for v in pat_variants(a["pat"]):
+            handled.setdefault(v.split("::")[-1], a)
+    for kind in REQUIRED_KINDS:
+        a = handled.get(kind)
+        ok = a is not None and "guard" not in a and emits_something(tb, a["body"], wid) and not is_err_return(tb, a["body"])
+        rep.check(ok, "kind:%s@Type::serialize" % kind,
+                  "TypeKind::%s has an arm that writes C text" % kind if ok else "TypeKind::%s is not serialised (no arm, guarded arm, or Err)" % kind,
+                  tb.loc(a["body"]) if a is not None else tb.loc(top))
+    rep.note("handled_kinds", sorted(k for k in handled if k != "_"))
+    # every diverging arm of every match in the serializers is `return Err(CodegenError::Serialize{..})`
+    bodies = [tb, serializer(rep, TYPEID), serializer(rep, ITEM)]
+    for nm in ("codegen::serialize::serialize_args", "codegen::serialize::serialize_sep"):
+        bodies.append(rep.need(prog.fn(nm), nm))
+    for sb in bodies:
+        for m in sb.nodes:
+            if m["k"] != "Match" or m.get("src") not in (None, "match"):
+                continue
+            if sb.macro_name(m) in ("write", "writeln", "format"):
+                continue
+            for a in m["arms"]:
+                pv = pat_variants(a["pat"])
+                if sb.diverges(a["body"]) or "_" in pv:
+                    scr = (sb.ty(m["scrut"]) or "?").replace("&", "").split("::")[-1]
+                    wids = {p.get("id") for p in sb.params if p.get("k") == "Bind"}
+                    ok = is_err_return(sb, a["body"]) if sb.diverges(a["body"]) else \
+                        (is_err_return(sb, a["body"], True) or emits_something(sb, a["body"], wids))
+                    rep.check(ok, "unsupported-is-err:%s:%s@%s" % (scr, "|".join(sorted(v.split("::")[-1] for v in pv)), short(sb)),
+                              "arm %s" % ("yields Err(CodegenError::Serialize{..}) or writes" if ok else "neither writes nor yields CodegenError::Serialize"),
+                              sb.loc(a["body"]))
+        ps = panic_sites(sb)
+        rep.check(not ps, "no-panic@" + short(sb), "no panic!/unreachable!/todo!/assert!/unwrap() in %s%s" % (short(sb), (": " + ", ".join(p[0] for p in ps)) if ps else ""),
+                  sb.loc(ps[0][1]) if ps else sb.loc(sb.root))
+    # the declarator (name, `*`) collected on the stack is written after the type
+    pops = []
+    for n in tb.nodes:
+        if n["k"] in ("While", "Loop", "For") and not any(a is top for a in tb.ancestors(n)):
+            cond = n.get("cond") or n.get("iter") or {}
+            hit = [c for c in tb.calls(lambda x: x["k"] == "MCall" and x["name"] in ("pop", "drain", "into_iter", "iter") and local_id(x["recv"]) == stack_id, cond)]
+            if hit and emits_something(tb, n["body"], wid):
+                pops.append(n)
+    ok = bool(pops) and all(n["_i"] > top["_i"] for n in pops)
+    extra = []
+    for n in pops:
+        extra += [g for g in tb.guards(n) if g[1] == "cond" and not ("is_empty" in tb.canon(g[2], 4))]
+    rep.check(ok and not extra, "declarator-written-after-type@Type::serialize",
+              "the pending declarator stack (parameter name, `*`) is drained to the writer after the kind match (%d loop(s), %d foreign guard(s))" % (len(pops), len(extra)),
+              tb.loc(pops[0]) if pops else tb.loc(top))
+    # pointer arm pushes `*` and recurses with the same stack
+    pa = handled.get("Pointer")
+    if pa is not None:
+        pushes = [c for c in tb.calls(lambda x: x["k"] == "MCall" and x["name"] == "push" and local_id(x["recv"]) == stack_id, pa["body"])]
+        stars = [c for c in pushes if "*" in str(resolve(tb, strip(c["args"][0]).get("recv", c["args"][0])).get("v", ""))]
+        rec = [c for c in tb.calls(lambda x: x["k"] == "MCall" and CS in callee(x), pa["body"]) if any(local_id(a) == stack_id for a in c["args"])]
+        uncond = [c for c in rec if not [g for g in tb.guards(c) if g not in tb.guards(pa["body"])]]
+        rep.check(bool(stars) and len(stars) == len(pushes) and bool(uncond), "pointer-declarator@Type::serialize",
+                  "`*` is pushed on every path (%d/%d) and the pointee is serialised with the same stack" % (len(stars), len(pushes)), tb.loc(pa["body"]))
+    # TypeId delegates to the type of the resolved item, passing stack and writer through
+    ib = serializer(rep, TYPEID)
+    d = [c for c in ib.calls(lambda x: x["k"] == "MCall" and callee(x).startswith("<%s as %s" % (TYPE, CS)))]
+    ok = len(d) == 1 and mentions(ib, d[0]["recv"], "BindgenContext::resolve_item") and \
+        [local_id(a) for a in d[0]["args"][-2:]] == [p.get("id") for p in ib.params[-2:]]
+    rep.check(ok, "typeid-delegates@TypeId::serialize", "resolves the id and serialises the type with the caller's stack and writer", ib.loc(ib.root))
+    # Item: functions go to CSerialize for Function with the same extra
+    itb = serializer(rep, ITEM)
+    d = [c for c in itb.calls(lambda x: x["k"] == "MCall" and callee(x).startswith("<%s as %s" % (FN, CS)))]
+    ok = len(d) == 1 and any("ItemKind::Function" in v for g in itb.guards(d[0]) if g[1] == "arm" for v in pat_variants(g[2][0]["arms"][g[2][1]]["pat"]))
+    if ok:
+        ex = resolve(itb, d[0]["args"][1])
+        ids = {local_id(e) for e in ex.get("es", [])} if ex.get("k") == "Tup" else set()
+        ok = itb.params[0].get("id") in ids and itb.params[2].get("id") in ids and local_id(d[0]["args"][-1]) == itb.params[-1].get("id")
+    rep.check(ok, "item-dispatch@Item::serialize", "ItemKind::Function => func.serialize(ctx, (self, extra), stack, writer)", itb.loc(itb.root))
+
+
+# ---------------------------------------------------------------------------------------------
+# R16.5  the wrapper text, by abstract execution of CSerialize for Function
+# ---------------------------------------------------------------------------------------------
+C_TOKEN = re.compile(r"[A-Za-z_][A-Za-z0-9_]*|\.\.\.|[0-9]+|\S")
+ORDER_PRESERVING = {"iter", "into_iter", "map", "collect", "cloned", "copied", "by_ref", "enumerate", "filter_map", "to_vec", "clone",
+                    "iter_mut", "into_boxed_slice", "as_slice", "inspect", "peekable"}
+MUTATORS = {"insert", "push", "remove", "pop", "swap", "reverse", "sort", "sort_by", "sort_by_key", "sort_unstable", "truncate", "clear",
+            "retain", "drain", "dedup", "swap_remove", "rotate_left", "rotate_right", "extend", "append", "split_off", "resize"}
+
+
+class Stop(Exception):
+    pass
+
+
+class WrapperText:
+    """Token sequence written by `<Function as CSerialize>::serialize` in one world."""
+
+    def __init__(self, prog, body, world):
+        self.prog, self.b, self.world = prog, body, world
+        self.lg = Logic(body)
+        self.writer = body.params[-1].get("id")
+        self.va_id = None
+        for lid, d in body.local_def.items():
+            if d[0][0] == "param" and "WrapAsVariadic" in (prog.types[d[2]["t"]] if "t" in d[2] else ""):
+                self.va_id = lid
+        self.tokens = []
+
+    # -- conditions ---------------------------------------------------------------------------------
+    def atom_value(self, a):
+        key = a[1]
+        n = self.lg.info.get(key)
+        if key.startswith("some:") and n is not None and local_id(n) == self.va_id and self.va_id is not None:
+            return self.world["va"]
+        if "ir::ty::Type::is_void" in key and n is not None and mentions(self.b, n, "FunctionSig::return_type"):
+            return self.world["void"]
+        return None
+
+    def truth(self, f):
+        env = {}
+        for a in f_atoms(f):
+            v = self.atom_value(a)
+            if v is None:
+                return None
+            env[a] = v
+        return f_eval(f, env)
+
+    def cond(self, n):
+        return self.truth(self.lg.boolf(n))
+
+    def pick_arm(self, m):
+        st = (self.b.ty(m["scrut"]) or "").lstrip("&")
+        if st.startswith("std::option::Option<") or st == "bool":
+            for i, a in enumerate(m["arms"]):
+                if "guard" in a:
+                    return None
+                v = self.truth(self.lg.armf(m, i))
+                if v is None:
+                    return None
+                if v:
+                    return a
+        return None
+
+    def has_output(self, n):
+        for c in self.b.calls(None, n):
+            if self.is_write(c) or self.is_helper(c):
+                return True
+        return False
+
+    def is_write(self, c):
+        return c["k"] == "MCall" and c["name"] in ("write_fmt", "write_all", "write_str") and local_id(c["recv"]) == self.writer
+
+    def is_helper(self, c):
+        cal = callee(c)
+        return cal.startswith("codegen::serialize::serialize_") or (CS in cal and c["k"] == "MCall")
+
+    # -- values -------------------------------------------------------------------------------------
+    def value(self, n):
+        """literal text of an expression in this world, or None."""
+        b = self.b
+        for _ in range(8):
+            n = resolve(b, n)
+            k = n.get("k")
+            if k == "Lit" and isinstance(n.get("v"), str):
+                return n["v"]
+            if k == "Path" and n.get("def") in self.prog.bodies:
+                r = strip(self.prog.bodies[n["def"]].root)
+                return r["v"] if r.get("k") == "Lit" and isinstance(r.get("v"), str) else None
+            if k == "If" and "else" in n:
+                v = self.cond(n["cond"])
+                if v is None:
+                    return None
+                n = n["then"] if v else n["else"]
+                continue
+            if k == "Match":
+                a = self.pick_arm(n)
+                if a is None:
+                    return None
+                n = a["body"]
+                continue
+            return None
+        return None
+
+    def lit(self, text):
+        self.tokens += [("T", t) for t in C_TOKEN.findall(text)]
+
+    def arg(self, n):
+        b = self.b
+        v = self.value(n)
+        if v is not None:
+            self.lit(v)
+            return
+        if is_fn_name(b, n):
+            self.tokens.append(("NAME",))
+            return
+        r = resolve(b, n)
+        parts = concat_parts(b, r)
+        if parts is not None and any(p[0] == "arg" and is_suffix_call(b, p[1]) for p in parts):
+            shape = ["suffix" if p[0] == "arg" and is_suffix_call(b, p[1]) else "name" if p[0] == "arg" and is_fn_name(b, p[1]) else "?" for p in parts]
+            self.tokens.append(("WRAPNAME", shape == ["name", "suffix"]))
+            return
+        if r.get("k") == "Field" and r["f"] == "0":
+            u = strip(r["base"])
+            if u.get("k") == "MCall" and u["name"] in ("unwrap", "expect") and strip(u["recv"]).get("k") == "MCall" and strip(u["recv"])["name"] == "last":
+                self.tokens.append(("LAST", local_id(strip(u["recv"])["recv"])))
+                return
+        self.tokens.append(("ARG", b.canon(n, 3)))
+
+    # -- execution ----------------------------------------------------------------------------------
+    def run(self):
+        try:
+            self.ex(self.b.root)
+        except Stop:
+            pass
+        return self.tokens
+
+    def ex(self, n):
+        b = self.b
+        k = n.get("k")
+        if k == "Block":
+            for st in n.get("stmts", []):
+                self.ex(st)
+            if isinstance(n.get("tail"), dict):
+                self.ex(n["tail"])
+        elif k == "Let":
+            if isinstance(n.get("init"), dict):
+                self.ex(n["init"])
+        elif k in ("Semi", "ExprStmt", "Try", "AddrOf", "Cast"):
+            self.ex(n["e"])
+        elif k == "Ret":
+            if "e" in n:
+                self.ex(n["e"])
+            raise Stop()
+        elif k == "If":
+            v = self.cond(n["cond"])
+            if v is True:
+                self.ex(n["then"])
+            elif v is False:
+                if "else" in n:
+                    self.ex(n["else"])
+            elif "else" not in n and b.diverges(n["then"]):
+                return      # error exit, not part of a successful serialisation
+            elif self.has_output(n):
+                self.tokens.append(("UNKNOWN", "branch at %s" % b.loc(n)))
+        elif k == "Match":
+            a = self.pick_arm(n)
+            if a is not None:
+                self.ex(a["body"])
+            elif self.has_output(n):
+                self.tokens.append(("UNKNOWN", "match at %s" % b.loc(n)))
+        elif k in ("For", "While", "Loop"):
+            if self.has_output(n):
+                self.tokens.append(("UNKNOWN", "loop at %s" % b.loc(n)))
+        elif k == "Closure":
+            return
+        elif k in ("Call", "MCall") and self.is_write(n):
+            ps = fmt_pieces(b, n)
+            if ps is None:
+                a = n["args"][0] if n["args"] else {}
+                v = self.value(a)
+                if n["name"] != "write_fmt" and v is not None:
+                    self.lit(v)
+                else:
+                    self.tokens.append(("UNKNOWN", "write at %s" % b.loc(n)))
+                return
+            for kind, x in ps:
+                if kind == "lit":
+                    self.lit(x)
+                else:
+                    self.arg(x)
+        elif k in ("Call", "MCall") and self.is_helper(n):
+            cal = callee(n)
+            if cal.endswith("serialize_args"):
+                self.tokens.append(("PARAMS", local_id(n["args"][0]), n))
+            elif cal.endswith("serialize_sep"):
+                src = strip(n["args"][1])
+                self.tokens.append(("NAMES", local_id(src), self.value(n["args"][0]), n))
+            elif cal.startswith("<%s as %s" % (TYPE, CS)) or cal.startswith("<%s as %s" % (TYPEID, CS)):
+                self.tokens.append(("TYPE", "ret" if mentions(b, n["recv"], "FunctionSig::return_type") else "?"))
+            else:
+                self.tokens.append(("UNKNOWN", "call %s" % cal))
+        else:
+            for _, c in kids(n):
+                self.ex(c)
+
+
+def find_seq(tokens, pat, start=0):
+    """first index >= start where the token texts match pat (strings match ("T", s); tuples match by prefix; None = any)."""
+    def m(tok, p):
+        if p is None:
+            return True
+        if isinstance(p, str):
+            return tok == ("T", p)
+        return tok[:len(p)] == p
+    for i in range(start, len(tokens) - len(pat) + 1):
+        if all(m(tokens[i + j], p) for j, p in enumerate(pat)):
+            return i
+    return -1
+
+
+def show(tokens):
+    out = []
+    for t in tokens:
+        out.append(t[1] if t[0] == "T" else "<%s>" % t[0])
+    return " ".join(out)
+
+
+def chain_to(body, n, target_id, allowed, depth=12):
+    """(reaches target local, [method names on the way]) following receiver chains and immutable/never-reassigned locals."""
+    names = []
+    while depth > 0:
+        depth -= 1
+        while n.get("k") in ("AddrOf", "Cast") or (n.get("k") == "Unary" and n.get("op") == "*") or \
+                (n.get("k") == "Block" and not n.get("stmts") and n.get("tail") is not None):
+            n = n.get("e") or n.get("tail")
+        k = n.get("k")
+        if k == "Local":
+            if n["id"] == target_id:
+                return True, names
+            d = body.local_def.get(n["id"])
+            if d and d[0][0] == "let" and not d[1] and d[0][1].get("init") is not None and n["id"] not in body.local_assigned:
+                n = d[0][1]["init"]
+                while n.get("k") == "Block" and n.get("tail") is not None:
+                    n = n["tail"]      # `let x = { lets…; chain }`
+                continue
+            return False, names
+        if k == "MCall":
+            names.append(n["name"])
+            n = n["recv"]
+            continue
+        return False, names
+    return False, names
